@@ -229,4 +229,167 @@ theorem meld_noAdjacent (ps : List Part) : noAdjacentLits (meld ps) = true := by
             | nil => simp [meld] at hq
             | cons r rest2 => cases r <;> simp [meld] at hq
 
+/-! ## flushing twice is flushing once -/
+
+theorem adjust_zero (sp : Char → Bool) (nl : Bool) (ps : List Part) : adjust sp 0 nl ps = ps := by
+  induction ps generalizing nl with
+  | nil => rfl
+  | cons p rest ih =>
+    cases p with
+    | seq k id => simp [adjust, ih]
+    | lit s => simp only [adjust, List.drop_zero, ih]; split <;> rfl
+
+theorem indentOf_le_length (sp : Char → Bool) (s : List Char) : indentOf sp s ≤ s.length := by
+  unfold indentOf
+  induction s with
+  | nil => simp
+  | cons c s ih =>
+    by_cases hc : sp c = true
+    · simp [List.takeWhile, hc]; exact ih
+    · simp [List.takeWhile, hc]
+
+theorem indentOf_drop (sp : Char → Bool) (s : List Char) (m : Nat) (h : m ≤ indentOf sp s) :
+    indentOf sp (s.drop m) = indentOf sp s - m := by
+  induction s generalizing m with
+  | nil => simp [indentOf]
+  | cons c s ih =>
+    cases m with
+    | zero => simp
+    | succ m =>
+      by_cases hc : sp c = true
+      · have h' : m ≤ indentOf sp s := by simp [indentOf, List.takeWhile, hc] at h; exact h
+        have := ih m h'
+        simp [indentOf, List.takeWhile, hc] at this ⊢
+        omega
+      · simp [indentOf, List.takeWhile, hc] at h
+
+theorem all_drop_of_indent (sp : Char → Bool) (s : List Char) (m : Nat) (h : m ≤ indentOf sp s) :
+    (s.drop m).all sp = s.all sp := by
+  induction s generalizing m with
+  | nil => simp
+  | cons c s ih =>
+    cases m with
+    | zero => rfl
+    | succ m =>
+      by_cases hc : sp c = true
+      · have h' : m ≤ indentOf sp s := by simp [indentOf, List.takeWhile, hc] at h; exact h
+        simp [hc, ih m h']
+      · simp [indentOf, List.takeWhile, hc] at h
+
+theorem indent_eq_length_of_all (sp : Char → Bool) (s : List Char) (h : s.all sp = true) :
+    indentOf sp s = s.length := by
+  induction s with
+  | nil => rfl
+  | cons c s ih =>
+    simp only [List.all_cons, Bool.and_eq_true] at h
+    simp [indentOf, List.takeWhile, h.1]
+    exact ih h.2
+
+theorem all_of_indent_eq_length (sp : Char → Bool) (s : List Char) (h : indentOf sp s = s.length) :
+    s.all sp = true := by
+  induction s with
+  | nil => rfl
+  | cons c s ih =>
+    by_cases hc : sp c = true
+    · simp [indentOf, List.takeWhile, hc] at h
+      simp [hc, ih h]
+    · simp [indentOf, List.takeWhile, hc] at h
+
+/-- dropping at most the indentation of a line that is not blank keeps its line ending and keeps it non-blank -/
+theorem endsNl_drop (sp : Char → Bool) (s : List Char) (m : Nat) (h : m ≤ indentOf sp s)
+    (hb : isBlankLine sp s = false) : endsNl (s.drop m) = endsNl s := by
+  by_cases hlt : m < s.length
+  · unfold endsNl
+    rw [List.getLast?_drop]
+    simp [Nat.not_le.mpr hlt]
+  · have hlen := indentOf_le_length sp s
+    have hm : m = s.length := by omega
+    have hall : s.all sp = true := all_of_indent_eq_length sp s (by omega)
+    have : endsNl s = false := by
+      simp only [isBlankLine, hall, Bool.true_and] at hb; exact hb
+    subst hm
+    rw [this]
+    simp [endsNl]
+
+theorem isBlankLine_drop (sp : Char → Bool) (s : List Char) (m : Nat) (h : m ≤ indentOf sp s)
+    (hb : isBlankLine sp s = false) : isBlankLine sp (s.drop m) = false := by
+  have h1 := endsNl_drop sp s m h hb
+  have h2 := all_drop_of_indent sp s m h
+  unfold isBlankLine at hb ⊢
+  rw [h1, h2]; exact hb
+
+theorem omin_map_sub (a b : Option Nat) (m : Nat) (ha : ∀ x, a = some x → m ≤ x) (hb : ∀ x, b = some x → m ≤ x) :
+    omin (a.map (· - m)) (b.map (· - m)) = (omin a b).map (· - m) := by
+  cases a <;> cases b <;> simp [omin]
+  rename_i x y
+  have := ha x rfl; have := hb y rfl
+  omega
+
+/-- after the adjustment every counted indentation is smaller by `m` -/
+theorem minIndent_adjust (sp : Char → Bool) (m : Nat) (nl : Bool) (ps : List Part)
+    (h : ∀ x, minIndent sp nl ps = some x → m ≤ x) :
+    minIndent sp nl (adjust sp m nl ps) = (minIndent sp nl ps).map (· - m) := by
+  induction ps generalizing nl with
+  | nil => rfl
+  | cons p rest ih =>
+    have hparts := fun x (hx : minIndent sp nl (p :: rest) = some x) => omin_some_le (a := if nl then lineIndent sp p else none) (b := minIndent sp (nextNl p) rest) (x := x) (by simpa [minIndent] using hx)
+    have hrest : ∀ x, minIndent sp (nextNl p) rest = some x → m ≤ x := by
+      intro x hx
+      cases hh : (if nl then lineIndent sp p else none) with
+      | none => exact h x (by simp [minIndent, hh, omin, hx])
+      | some n =>
+        have := h (min n x) (by simp [minIndent, hh, omin, hx])
+        omega
+    have hhere : ∀ x, (if nl then lineIndent sp p else none) = some x → m ≤ x := by
+      intro x hx
+      cases hr : minIndent sp (nextNl p) rest with
+      | none => exact h x (by simp [minIndent, hx, omin, hr])
+      | some y =>
+        have := h (min x y) (by simp [minIndent, hx, omin, hr])
+        omega
+    cases p with
+    | seq k id =>
+      have : m = 0 ∨ nl = false := by
+        cases nl with
+        | false => exact Or.inr rfl
+        | true => exact Or.inl (by have := hhere 0 (by simp [lineIndent]); omega)
+      rcases this with h0 | h0
+      · subst h0
+        simp [adjust_zero]
+      · subst h0
+        simp only [adjust, minIndent, nextNl, Bool.false_eq_true, if_false, omin]
+        exact ih false hrest
+    | lit s =>
+      simp only [adjust]
+      by_cases hc : (nl && !isBlankLine sp s) = true
+      · simp only [hc, if_true]
+        simp only [Bool.and_eq_true, Bool.not_eq_true'] at hc
+        have hm : m ≤ indentOf sp s := hhere _ (by simp [hc.1, lineIndent, hc.2])
+        have hnl : nextNl (.lit (s.drop m)) = nextNl (.lit s) := by
+          simp only [nextNl]; exact endsNl_drop sp s m hm hc.2
+        simp only [minIndent, hc.1, if_true, lineIndent, isBlankLine_drop sp s m hm hc.2, hc.2,
+          Bool.false_eq_true, if_false, hnl, indentOf_drop sp s m hm]
+        rw [ih _ hrest]
+        exact omin_map_sub (some (indentOf sp s)) _ m (by intro x hx; cases hx; exact hm) hrest
+      · simp only [hc, Bool.false_eq_true, if_false]
+        simp only [minIndent]
+        rw [ih _ hrest]
+        have hnone : (if nl then lineIndent sp (.lit s) else none) = none := by
+          cases nl with
+          | false => rfl
+          | true =>
+            simp only [Bool.true_and, Bool.not_eq_true', Bool.not_eq_false] at hc
+            simp [lineIndent, hc]
+        rw [hnone]
+        simp [omin]
+
+/-- Flushing is idempotent: after the smallest indentation has been removed, the smallest indentation is 0. -/
+theorem flush_idem (sp : Char → Bool) (ps : List Part) : flush sp (flush sp ps) = flush sp ps := by
+  unfold flush
+  cases hm : minIndent sp true ps with
+  | none => simp [hm]
+  | some m =>
+    have h := minIndent_adjust sp m true ps (by intro x hx; rw [hm] at hx; cases hx; exact Nat.le_refl _)
+    simp only [h, hm, Option.map_some, Nat.sub_self, adjust_zero]
+
 end HclModel.Template.Proofs
